@@ -18,7 +18,7 @@ use crate::repo::{MemBackend, MemSource, RepoHandle, SRC_ROOT, SrcEntry, SrcKind
 use crate::util::{Rng, Stats, errkind, guarded, hex, unhex};
 use rustic_core::repofile::{Chunker, ConfigFile, MasterKey, Metadata, Node, NodeType, SnapshotFile};
 use rustic_core::{
-    BackupOptions, Credentials, KeyOptions, LocalDestination, LsOptions, Repository, RepositoryOptions, RestoreOptions,
+    BackupOptions, Credentials, KeyOptions, LocalDestination, LsOptions, Repository, RestoreOptions,
 };
 
 const DEFAULT_POLY: u64 = 0x003D_A335_8B4D_C173;
@@ -108,7 +108,7 @@ impl Cfg {
 
 fn init_with(cfg: &Cfg) -> Result<RepoHandle, String> {
     let h = RepoHandle { be: MemBackend::new(), hot: None, key: MasterKey::new() };
-    let repo = Repository::new(&RepositoryOptions::default().no_cache(true), &h.backends()).map_err(|e| errkind(&e))?;
+    let repo = Repository::new(&RepoHandle::default_opts(), &h.backends()).map_err(|e| errkind(&e))?;
     _ = repo
         .init_with_config(&Credentials::Masterkey(h.key.clone()), &KeyOptions::default(), cfg.config_file())
         .map_err(|e| errkind(&e))?;
